@@ -72,6 +72,7 @@ structure MObj where
   key : Array Int         -- map keys (integers for Int / String keys, object ids for Ref keys)
   kt : Ety := .R          -- CURRENT key type (T/E); redefined by `assign`
   vt : Ety := .R          -- CURRENT element (A/L) or value (T/E) type; redefined by `assign`
+  raw : Bool := false     -- allocated with `new_raw`: never registered with the collector
 deriving Repr, Inhabited
 
 def MObj.refKeys (o : MObj) : Bool := o.kind.isMap && o.kt == .R
@@ -90,6 +91,7 @@ structure MState where
   ghost : Std.HashSet Nat := {}   -- full mode: targets of Tuples / ProbeMs that became garbage (may not be deleted by hand: KF-C01-dangling-tuple-item)
   minId : Option Nat := none      -- lowest / highest object ever registered: gc->minptr / gc->maxptr
   maxId : Option Nat := none
+  stale : List Nat := []          -- objects whose registry entry has its mark bit set BETWEEN collections (left by `xraise`)
   -- statistics (driver's `S` line)
   nMarked : Nat := 0
   nFreed : Nat := 0
@@ -164,7 +166,8 @@ def threadObj (st : MState) : Obj :=
       st.tls.toList.flatMap fun e => match e with | some t => [.raw "String" [0], refObj t] | none => []))
 
 def MState.heap (st : MState) : Heap :=
-  let hm : Std.HashMap Addr Entry := st.objs.fold (fun acc id o => acc.insert (addrOf id) ⟨toObj id o, o.root⟩) {}
+  let hm : Std.HashMap Addr Entry := st.objs.fold (fun acc id o =>
+    if o.raw then acc else acc.insert (addrOf id) ⟨toObj id o, o.root⟩) {}
   Heap.ofHashMap hm
     (match st.minId with | some i => addrOf i | none => 2 ^ 64 - 1)
     (match st.maxId with | some i => addrOf i | none => 0)
@@ -279,17 +282,58 @@ def MState.doNewObj (st : MState) (id : Nat) (o : MObj) (boxTgt : Option Nat) (s
   let st := { st with
     objs, used := st.used.insert id
     roots := match slot with | some j => st.roots.setIfInBounds j (Tok.obj id) | none => st.roots
-    minId := some (match st.minId with | some m => min m id | none => id)
-    maxId := some (match st.maxId with | some m => max m id | none => id) }
+    minId := if o.raw then st.minId else some (match st.minId with | some m => min m id | none => id)
+    maxId := if o.raw then st.maxId else some (match st.maxId with | some m => max m id | none => id) }
   if st.full then st.checkpoint else (st, [])
 
-def MState.doNew (st : MState) (id : Nat) (kte : Kind × Ety × Ety) (k : Nat) (rf : Bool) (boxTgt : Option Nat) (slot : Option Nat) :
-    MState × List Nat :=
+def MState.doNewR (st : MState) (id : Nat) (kte : Kind × Ety × Ety) (k : Nat) (rf : Bool) (boxTgt : Option Nat) (slot : Option Nat)
+    (raw : Bool) : MState × List Nat :=
   let kind := kte.1
   let el : Array Tok := if kind.isWords then Array.replicate k Tok.nil else #[]
   let el := match kind, boxTgt with | .B, some t => el.setIfInBounds 0 (Tok.obj t) | _, _ => el
-  let o : MObj := { kind, k := if kind.isWords then k else 0, root := rf, owner := none, el, key := #[], kt := kte.2.1, vt := kte.2.2 }
+  let o : MObj := { kind, k := if kind.isWords then k else 0, root := rf, owner := none, el, key := #[], kt := kte.2.1, vt := kte.2.2, raw }
   st.doNewObj id o boxTgt slot
+
+def MState.doNew (st : MState) (id : Nat) (kte : Kind × Ety × Ety) (k : Nat) (rf : Bool) (boxTgt : Option Nat) (slot : Option Nat) :
+    MState × List Nat := st.doNewR id kte k rf boxTgt slot false
+
+/-- is the token a pointer to an object allocated with `new_raw`?  A registered Tuple / user Mark instance would hand it to the
+    callback, which traces unregistered memory (`GC_Mark_And_Recurse` → `GC_Recurse`): not in the model (`CallbackSafe`) -/
+def MState.rawTok (st : MState) : Tok → Bool
+  | .obj id => (match st.objs[id]? with | some o => o.raw | none => false)
+  | _ => false
+
+/-- the blocks one collection releases: the pending list, plus what the destructors of pending Boxes delete (`Cello.Heap.release`);
+    when no pending item owns anything the release loop finalises exactly the pending list (cross-checked by `R rel=`) -/
+def releasedAddrs (h h1 : Heap) (pending : List Addr) : List Addr × String :=
+  let owners := pending.any fun a => !(h.ownsAt a).isEmpty
+  if owners then ((release h h1 pending).finalised, "full")
+  else if pending.length ≤ 1500 then
+    let f := (release h h1 pending).finalised
+    (pending, if f.length == pending.length && f.all pending.contains then "agree" else "differ")
+  else (pending, "skipped")
+
+/-- one exact-mode collection on the model: `GC_Mark` from the bits that are set (none, unless an `xraise` left some and `GC_Mark`
+    does not clear them first), `GC_Sweep` with its release loop; returns the new state and the observation text -/
+def MState.exactCollect (st : MState) (words : List Word) (tag : String) : MState × List String :=
+  let h := st.heap
+  let started := if CelloGen.GcMark.markClearsFirst then [] else st.stale.map addrOf
+  let m := gcMarkFrom hashSet Cfg.current h (threadObj st) words (seed hashSet started)
+  let marked := st.objs.keys.filter (fun i => m.contains (addrOf i))
+  let (h1, pending) := sweep hashSet h m
+  let (rel, relTxt) := releasedAddrs h h1 pending
+  let freed := (rel.filterMap idOfAddr).eraseDups
+  let st' := { st with objs := freed.foldl (fun o i => o.erase i) st.objs, stale := []
+                       nMarked := st.nMarked + marked.length, nFreed := st.nFreed + freed.length, nCollect := st.nCollect + 1 }
+  -- cross-check inside the model: the marker with the call structure of GC.c (depth budget 4n+64) sets the same bits
+  let recTxt :=
+    if st.objs.size ≤ 4000 && started.isEmpty then
+      match gcMarkRec hashSet Cfg.current h (4 * st.objs.size + 64) (threadObj st) words with
+      | .ok m2 => if st.objs.keys.all (fun i => m.contains (addrOf i) == m2.contains (addrOf i)) then "agree" else "differ"
+      | .deep => "deep"
+      | .ub => "ub"
+    else "skipped"
+  (st', [s!"O {tag} marked={setText marked} freed={setText freed}", s!"R rec={recTxt}", s!"R rel={relTxt}"])
 
 /-- what `Ref_Assign(elem, item)` stores for a stored pointer of a heap Tuple: `deref(item)` when the item is a Ref -/
 def MState.derefTok (st : MState) (t : Tok) : Tok :=
@@ -357,6 +401,7 @@ def MState.step (st : MState) (w : List String) : MState × List String :=
     else bad st
   | "new" :: args =>
     let st := { st with started := true }
+    if !st.stale.isEmpty then bad st else     -- GC_Rehash would clear the bits: which allocations resize the registry is C17's model
     match args with
     | [ids, ks, arg, wh] =>
       match (parseLong ids).bind natOf, parseKind ks, parseWhere wh with
@@ -388,6 +433,7 @@ def MState.step (st : MState) (w : List String) : MState × List String :=
     | _ => bad st
   | "pair" :: args =>
     let st := { st with started := true }
+    if !st.stale.isEmpty then bad st else
     match args with
     | [ias, ibs, wh] =>
       match (parseLong ias).bind natOf, (parseLong ibs).bind natOf, parseWhere wh with
@@ -410,7 +456,7 @@ def MState.step (st : MState) (w : List String) : MState × List String :=
       | some o =>
         if !st.tokOk t then bad st
         else if !(o.kind = .P ∨ o.kind = .M ∨ o.kind = .R) ∨ slot < 0 ∨ slot ≥ (o.k : Int) then bad st
-        else if o.kind = .M ∧ !t.isObjOrNil then bad st
+        else if o.kind = .M ∧ (!t.isObjOrNil || st.rawTok t) then bad st
         else ({ st with objs := st.objs.modify id fun o => { o with el := o.el.setIfInBounds slot.toNat t } }, ["O ok"])
       | none => bad st
     | _, _, _ => bad st
@@ -421,6 +467,7 @@ def MState.step (st : MState) (w : List String) : MState × List String :=
       | some o =>
         if !o.kind.isSeq || !st.tokOk t then bad st
         else if !(t.isObj || (t = Tok.nil && o.kind ≠ .H)) then bad st
+        else if o.kind = .H && st.rawTok t then bad st
         else (st.seqPush id t, ["O ok"])
       | none => bad st
     | _, _ => bad st
@@ -440,6 +487,7 @@ def MState.step (st : MState) (w : List String) : MState × List String :=
       | some o =>
         if !o.kind.isSeq || idx < 0 || idx ≥ (o.el.size : Int) || !st.tokOk t then bad st
         else if !(t.isObj || (t = Tok.nil && o.kind ≠ .H)) then bad st
+        else if o.kind = .H && st.rawTok t then bad st
         else ({ st with objs := st.objs.modify id fun o => { o with el := o.el.setIfInBounds idx.toNat t } }, ["O ok"])
       | none => bad st
     | _, _, _ => bad st
@@ -505,6 +553,7 @@ def MState.step (st : MState) (w : List String) : MState × List String :=
     | _, _ => bad st
   | "copy" :: args =>
     let st := { st with started := true }
+    if !st.stale.isEmpty then bad st else
     match args with
     | [ids, ss, wh] =>
       match (parseLong ids).bind natOf, (parseLong ss).bind natOf, parseWhere wh with
@@ -513,7 +562,7 @@ def MState.step (st : MState) (w : List String) : MState × List String :=
         match st.objs[s]? with
         | some os =>
           if !(os.kind.isArr || os.kind.isMap || os.kind = .H) then bad st else
-          let o : MObj := { os with root := false, owner := none }
+          let o : MObj := { os with root := false, owner := none, raw := false }
           let agree := Obj.beq (toObj id o) ((toObj s os).copyOf st.heap)
           let (st', live) := st.doNewObj id o none slot
           (st', [if st.full then s!"O copy {id} live={setText live}" else s!"O copy {id}", s!"R retype={if agree then "agree" else "differ"}"])
@@ -547,13 +596,14 @@ def MState.step (st : MState) (w : List String) : MState × List String :=
   | ["del", ids] =>
     match (parseLong ids).bind natOf with
     | some id =>
-      if !st.usable id || st.hasIncoming id none || st.ghost.contains id then bad st
+      if !st.usable id || st.hasIncoming id none || st.ghost.contains id || !st.stale.isEmpty then bad st
       else
         let (st', n) := st.del id (st.objs.size + 1)
         (st', [s!"O del {n}"])
     | none => bad st
   | "chain" :: args =>
     let st := { st with started := true }
+    if !st.stale.isEmpty then bad st else
     match args with
     | [ids, ns, ks, wh] =>
       match (parseLong ids).bind natOf, (parseLong ns).bind natOf, chainKind ks, parseWhere wh with
@@ -576,23 +626,56 @@ def MState.step (st : MState) (w : List String) : MState × List String :=
     let st := { st with started := true }
     let ts := toks.map parseTok
     if ts.any (fun t => match t with | some t => !st.tokOk t | none => true) then bad st else
-    let words := ts.filterMap (·.map tokWord)
-    let h := st.heap
-    let m := gcMark hashSet Cfg.current h (threadObj st) words
-    let marked := st.objs.keys.filter (fun i => m.contains (addrOf i))
-    let (_, pending) := sweep hashSet h m
-    let freed := pending.filterMap idOfAddr
-    let st' := { st with objs := freed.foldl (fun o i => o.erase i) st.objs
-                         nMarked := st.nMarked + marked.length, nFreed := st.nFreed + freed.length, nCollect := st.nCollect + 1 }
-    -- cross-check inside the model: the marker with the call structure of GC.c (depth budget 4n+64) sets the same bits
-    let recTxt :=
-      if st.objs.size ≤ 4000 then
-        match gcMarkRec hashSet Cfg.current h (4 * st.objs.size + 64) (threadObj st) words with
-        | .ok m2 => if st.objs.keys.all (fun i => m.contains (addrOf i) == m2.contains (addrOf i)) then "agree" else "differ"
-        | .deep => "deep"
-        | .ub => "ub"
-      else "skipped"
-    (st', [s!"O x marked={setText marked} freed={setText freed}", s!"R rec={recTxt}"])
+    st.exactCollect (ts.filterMap (·.map tokWord)) "x"
+  | "xraise" :: ids :: toks =>
+    -- a collection during which the Mark instance of ProbeM `id` throws: the mark phase is left after the marking event of `id`
+    -- (`GOp.raise`), the sweep is skipped, the bits set so far stay.  If `id` is never reached the collection completes.
+    if st.full then bad st else
+    let st := { st with started := true }
+    match (parseLong ids).bind natOf with
+    | some id =>
+      match st.objs[id]? with
+      | some o =>
+        let ts := toks.map parseTok
+        if o.kind != .M || ts.any (fun t => match t with | some t => !st.tokOk t | none => true) then bad st else
+        let words := ts.filterMap (·.map tokWord)
+        let started := if CelloGen.GcMark.markClearsFirst then [] else st.stale.map addrOf
+        let events := markEvents Cfg.current st.heap (threadObj st) words started
+        match events.idxOf? (addrOf id) with
+        | some k =>
+          let stale := ((events.take (k + 1) ++ started).filterMap idOfAddr).eraseDups
+          ({ st with stale, nCollect := st.nCollect + 1 }, [s!"O xr raised marked={setText stale}"])
+        | none => st.exactCollect words "xr completed"
+      | none => bad st
+    | none => bad st
+  | ["xbox", ids, ts] =>
+    -- a Box on an object that may be referenced from elsewhere: outside Box's ownership contract (`boxExclusive`)
+    if st.full || !st.stale.isEmpty then bad st else
+    let st := { st with started := true }
+    match (parseLong ids).bind natOf, (parseLong ts).bind natOf with
+    | some id, some t =>
+      if id ≥ maxObj || st.used.contains id then bad st else
+      match st.objs[t]? with
+      | some ot =>
+        if st.owned t || ot.kind = .B || ot.raw then bad st
+        else
+          let (st', _) := st.doNew id (.B, .R, .R) 1 false (some t) none
+          (st', [s!"O new {id}"])
+      | none => bad st
+    | _, _ => bad st
+  | ["newraw", ids, ks, arg, wh] =>
+    -- a container allocated with `new_raw`: not registered, so the collector does not follow a path through it
+    if st.full || !st.stale.isEmpty then bad st else
+    let st := { st with started := true }
+    match (parseLong ids).bind natOf, kindOfLetter ks, parseWhere wh with
+    | some id, some kte, some slot =>
+      if id ≥ maxObj || st.used.contains id || !(kte.1.isArr || kte.1.isMap) then bad st else
+      match parseTypes kte.1 kte.2.1 kte.2.2 arg with
+      | some (kt, vt) =>
+        let (st', _) := st.doNewR id (kte.1, kt, vt) 0 false none slot true
+        (st', [s!"O new {id}"])
+      | none => bad st
+    | _, _, _ => bad st
   | ["collect"] =>
     if !st.full then bad st else
     let (st', live) := st.checkpoint
